@@ -24,7 +24,8 @@ ChildNeedsApplication == out.child => row.marker = "unset"
 UploadImpliesChild == out.upload => out.child /\ out.acquired
 OffWritesNothing == row.mode = "off" => pred.wrote = {} /\ pred.launched = 0
 MarkedWritesNoToken == row.marker # "unset" => "token" \notin pred.wrote
-CrashAloneSuffices == (Eligible(row) /\ row.crash) => out.child /\ pred.sidecars = ext.calls
+CrashAloneSuffices == (Eligible(row) /\ row.crash) => out.child /\ pred.sidecars = (IF ext.startFail = "none" THEN ext.calls ELSE 0)
+FailedStartLaunchesNobody == ext.startFail # "none" => pred.sidecars = 0 /\ ~pred.freshRemoved
 OneTokenPerSequence == (~ext.leak) => pred.uploaders <= 1
 ASSUME TableSatisfiesProperty
 ASSUME TableNotVacuous
